@@ -314,7 +314,9 @@ def run(ctx):
     bounds = [None, -1, 0, 10]
     pairs = [(a, b) for a in bounds for b in bounds if a is None or b is None or a <= b]
     values = []
-    for b in (-1, 0, 10, 12345678901234567890):
+    from vlib import lits
+    extra_ints = [v for v in lits.new('oslo_utils/strutils.py')['ints'] if abs(v) < 1 << 70][:6]
+    for b in [-1, 0, 10, 12345678901234567890] + extra_ints:
         for d in (-1, 0, 1):
             values += int_spellings(b + d)
     values += ['', ' ', 'abc', None, True, False, '1 0', '--1', '+-1', '１２', '1__0', '_1', '1_',
@@ -330,7 +332,7 @@ def run(ctx):
           with_lazy(lambda vals, acc, lazy: _int_case(vals[0], acc, lazy)))
     lens = []
     for lo in (0, 1, 3):
-        for hi in (None, 1, 3, 5):
+        for hi in [None, 1, 3, 5] + [v for v in extra_ints if 5 < v <= 100000][:3]:
             for n in sorted({0, 1, max(lo - 1, 0), lo, (hi or 6), (hi or 6) + 1}):
                 lens.append(('x' * n, lo, hi))
             for bad in (None, 5, b'abc', ['a'], 1.5):
